@@ -1,5 +1,7 @@
 import Chain33Model.Model.C29
 import Chain33Model.Proofs.C29Recover
+import Chain33Model.Proofs.C29Resume
+import Chain33Model.Props.C25
 /-!
 C29 — Block connection is crash-consistent.  Property theorems.
 
@@ -74,5 +76,58 @@ example :
     ((recover 0 2 true (crash 0 2 true g T 13)).map (fun s => s.best.map (·.id))) = some [1, 0] ∧
     ((recover 0 2 true (crash 0 2 true g T 14)).map (fun s => s.best.map (·.id))) = some [4, 1, 0] := by
   refine ⟨⟨rfl, by unfold UniqIds; decide, by decide, by decide⟩, by decide, by decide, by decide, by decide, by decide⟩
+
+/-- **resume_converges.**  For EVERY history `ds` over a block tree that delivers each block at
+least once, EVERY crash point `n`, and EVERY continuation `ds'` that (re-)delivers each tree block at
+least once (for instance the same history again; any order, duplicates): if the heaviest block `w`
+is unique and at least the margin high (no finaliser: finalised height 0, as in the node under
+test), then start-up on the surviving databases succeeds and continuing delivery from the recovered
+node ends in the SAME chain as the uninterrupted run — best chain (the branch of `w`), height index,
+last height and transaction index — with nothing left in the orphan pool.
+
+Proof: the recovered node is in lock step (`Rel`, `Proofs/C29Resume.lean`) with a fresh node fed the
+recovered chain in order; the latter's continuation is a delivery sequence from genesis, to which
+C25's `order_independent` applies, as it does to the uninterrupted run. -/
+theorem resume_converges {g : Block} {T : List Block} (ht : Tree g T) (m : Nat) (r : Bool)
+    (ds : List Block) (hds : ∀ b ∈ ds, b ∈ T) (hall : ∀ b ∈ T, b ∈ ds)
+    (w : Block) (hw : w ∈ g :: T) (hmax : ∀ b ∈ g :: T, b ≠ w → TD (g :: T) b < TD (g :: T) w)
+    (hel : m ≤ w.height) (n : Nat)
+    (ds' : List Block) (hds' : ∀ b ∈ ds', b ∈ T) (hall' : ∀ b ∈ T, b ∈ ds') :
+    ∃ sr, recover 0 m r (crash 0 m r g ds n) = some sr ∧
+      (deliverAll sr ds').best = chainTo (g :: T) w.height w ∧
+      (deliverAll sr ds').best = (deliverAll (init 0 m r g) ds).best ∧
+      (deliverAll sr ds').h2h = (deliverAll (init 0 m r g) ds).h2h ∧
+      (deliverAll sr ds').last = (deliverAll (init 0 m r g) ds).last ∧
+      (deliverAll sr ds').txIdx = (deliverAll (init 0 m r g) ds).txIdx ∧
+      (deliverAll sr ds').orphans = [] := by
+  obtain ⟨sr, path, hrec, hsub, hrel, hbase⟩ := resume_rel ht m r ds hds n
+  refine ⟨sr, hrec, ?_⟩
+  have hrel' := rel_deliverAll ht ds' sr _ hrel hbase (fun b hb => List.mem_cons_of_mem _ (hds' b hb))
+  have happ : deliverAll (deliverAll (init 0 m r g) path) ds' = deliverAll (init 0 m r g) (path ++ ds') := by
+    simp [deliverAll, List.foldl_append]
+  rw [happ] at hrel'
+  have h1 := order_independent ht 0 m r (path ++ ds')
+    (fun b hb => by
+      rcases List.mem_append.mp hb with h | h
+      · exact hsub b h
+      · exact hds' b h)
+    (fun b hb => List.mem_append_right _ (hall' b hb)) w hw hmax (by omega)
+  have h2 := order_independent ht 0 m r ds hds hall w hw hmax (by omega)
+  dsimp only at h1 h2
+  obtain ⟨a1, _, a3, a4, a5, _, a7⟩ := h1
+  obtain ⟨b1, _, b3, b4, b5, _, _⟩ := h2
+  exact ⟨by rw [hrel'.best, a1], by rw [hrel'.best, a1, b1], by rw [hrel'.h2h, a3, b3],
+    by rw [hrel'.last, a4, b4], by rw [hrel'.txIdx, a5, b5], by rw [hrel'.orphans, a7]⟩
+
+/-- Non-vacuity of `resume_converges`: the tree and history of the example above (unique heaviest
+block 4 at height 2 = margin).  Crashing inside the reorganisation (after write 11: `D3`; after 13:
+state of block 4 written, its chain batch not) and re-delivering the history ends in 0–1–4. -/
+example :
+    let g : Block := ⟨0, 0, 0, 5, []⟩
+    let T : List Block := [⟨1, 0, 1, 1, [7]⟩, ⟨2, 1, 2, 1, [8]⟩, ⟨3, 2, 3, 1, [9]⟩, ⟨4, 1, 2, 9, [8, 9]⟩]
+    (∀ b ∈ g :: T, b ≠ (⟨4, 1, 2, 9, [8, 9]⟩ : Block) → TD (g :: T) b < TD (g :: T) ⟨4, 1, 2, 9, [8, 9]⟩) ∧
+    ((recover 0 2 true (crash 0 2 true g T 11)).map (fun s => (deliverAll s T).best.map (·.id))) = some [4, 1, 0] ∧
+    ((recover 0 2 true (crash 0 2 true g T 13)).map (fun s => (deliverAll s T).best.map (·.id))) = some [4, 1, 0] := by
+  refine ⟨by decide, by decide, by decide⟩
 
 end C29
